@@ -315,7 +315,20 @@ def r19_7(ctx, prog, crate):
     bench_mode_tables(ctx, "R19.7", prog, crate)
 
 
+def r19_8(ctx, prog, crate):
+    """(= R08.1) What tuning compares with 100 x precision is the time of the sample loop only: on each of the recorder's
+    paths the start barrier precedes the start timestamp (and the end timestamp the end barrier), so a thread's sample never
+    includes its wait for the other threads' input generation - which alone would pass the threshold at size 1."""
+    from .C08 import Recorder, r08_1
+    from .common import Renamed
+    rec = Recorder(prog, crate)
+    if not ctx.anchor("R19.8", "sample recorder body", 1 if rec.body is not None else 0, 1):
+        return
+    r08_1(Renamed(ctx, "R19.8"), prog, crate, rec)
+
+
 def run(ctx, prog, crate):
+    r19_8(ctx, prog, crate)
     r19_6(ctx, prog, crate)
     r19_7(ctx, prog, crate)
     S = Sampling(prog, crate)
